@@ -20,7 +20,10 @@
 (*   "EndBlock.assign"  C05: the assignments the end-block made (as        *)
 (*                      observed: which signings, in which order) follow   *)
 (*                      the queue discipline (TssSigning!DEPart)           *)
-(* A cfg that owns only one facet assumes the other as observed.           *)
+(* A cfg that owns only one facet assumes the other as observed.  In the   *)
+(* life-cycle facet the creations of an end-block (oracle results, the     *)
+(* hand-over message of a group transition, tunnel packets) are taken as   *)
+(* observed: how many, with which committees, at their place in the order. *)
 (***************************************************************************)
 EXTENDS TssSigning, Json
 
@@ -39,11 +42,12 @@ Outcome == IF Line.o.ok THEN "ok" ELSE "rej"
 LParams(st) == [t |-> st.p.t, maxDE |-> st.p.maxDE, maxAtt |-> st.p.maxAtt, period |-> st.p.period, penalty |-> st.p.penalty]
 LQ(st)      == [a \in Addr |-> st.q[a]]
 LNser(st)   == [a \in Addr |-> st.nser[a]]
-LTss(st)    == [m \in Member |-> st.tssAct[m]]
-LOwn(st)    == [m \in Member |-> st.ownAct[m]]
-LCool(st)   == [m \in Member |-> st.cool[m]]
+LTss(st)    == [g \in Grp |-> [m \in Member |-> st.tssAct[g][m]]]
+LOwn(st)    == [g \in Grp |-> [m \in Member |-> st.ownAct[g][m]]]
+LCool(st)   == [g \in Grp |-> [m \in Member |-> st.cool[g][m]]]
 LSig(st)    == [id \in Ids |-> IF id <= st.count
-                               THEN [status |-> st.sig[id].status, attempt |-> st.sig[id].attempt, created |-> st.sig[id].created]
+                               THEN [status |-> st.sig[id].status, attempt |-> st.sig[id].attempt, created |-> st.sig[id].created,
+                                     grp |-> st.sig[id].grp]
                                ELSE NoSig]
 \* more than one stored attempt record for a signing can never equal a state of the specification
 LAtt(st)    == [id \in Ids |->
@@ -58,11 +62,15 @@ LExps(st)   == [i \in 1..Len(st.exps) |-> <<st.exps[i][1], st.exps[i][2]>>]
 LMapped(st) == [id \in Ids |-> id <= st.count /\ st.mapped[id]]
 LCnt(st, f) == [id \in Ids |-> IF id <= st.count THEN f[id] ELSE 0]
 
-RetsObs == [i \in 1..Len(Line.o.ret) |-> [id |-> Line.o.ret[i].id, a |-> Line.o.ret[i].a, S |-> ToSet(Line.o.ret[i].S)]]
-PObs    == [id \in Ids |-> IF \E i \in 1..Len(Line.o.ret) : Line.o.ret[i].id = id
-                           THEN ToSet(Line.o.ret[CHOOSE i \in 1..Len(Line.o.ret) : Line.o.ret[i].id = id].S)
-                           ELSE {}]
-PenObs  == ToSet(Line.o.pen)
+RetsObs == [i \in 1..Len(Line.o.ret) |-> [id |-> Line.o.ret[i].id, a |-> Line.o.ret[i].a, g |-> Line.o.ret[i].g,
+                                          S |-> ToSet(Line.o.ret[i].S), post |-> Line.o.ret[i].post]]
+PObs    == [id \in 1..(MaxSig + 2) |->
+               IF \E i \in 1..Len(Line.o.ret) : Line.o.ret[i].id = id
+               THEN LET r == Line.o.ret[CHOOSE i \in 1..Len(Line.o.ret) : Line.o.ret[i].id = id]
+                    IN [S |-> ToSet(r.S), g |-> r.g]
+               ELSE NoP]
+PenObs  == {<<Line.o.pen[i].g, Line.o.pen[i].m>> : i \in 1..Len(Line.o.pen)}
+AnyPr   == CHOOSE pr \in Prios : TRUE
 
 TraceInit == Init /\ l = 1 /\ ph = "act"
 
@@ -75,6 +83,7 @@ ResetVars(st) ==
     /\ sig' = [id \in Ids |-> NoSig] /\ att' = [id \in Ids |-> NoAtt] /\ tok' = [id \in Ids |-> NoTok]
     /\ exps' = <<>> /\ pend' = <<>>
     /\ mapped' = [id \in Ids |-> FALSE] /\ nSucc' = [id \in Ids |-> 0] /\ nFail' = [id \in Ids |-> 0]
+    /\ tr' = st.tr /\ st.tr = "none" /\ trSig' = 0
     /\ out' = "init" /\ pen' = {} /\ ret' = <<>>
     /\ usedBy' = [t \in Token |-> {}]
     /\ pchg' = FALSE
@@ -86,19 +95,22 @@ Skip == /\ out' = Outcome /\ pen' = {} /\ ret' = <<>>
 TSubmitDEs == Line.a.a \in Addr /\ SubmitDEs(Line.a.a, Line.a.k) /\ out' = Outcome
 TResetDE   == Line.a.a \in Addr /\ ResetDE(Line.a.a) /\ out' = Outcome
 TSubmitSig == Line.a.m \in Addr /\ SubmitSig(Line.a.m, Line.a.id, Line.a.valid) /\ out' = Outcome
-TActivate  == Line.a.a \in Addr /\ Activate(Line.a.a) /\ out' = Outcome
+TActivate  == Line.a.a \in Addr /\ Line.a.g \in Grp /\ Activate(Line.a.a, Line.a.g) /\ out' = Outcome
+TTransition == Transition /\ out' = Outcome
 TRollback  == ~Line.o.ok /\ RequestRollback
 
+\* a signing request inside a block (MsgRequestSignature or MsgTriggerTunnel)
 TRequest ==
     IF "Request" \in Owned
-    THEN \/ /\ Line.o.ok /\ Len(Line.o.ret) = 1
-            /\ RequestOK(RetsObs[1].S)
+    THEN \/ /\ Line.o.ok /\ Len(Line.o.ret) >= 1
+            /\ PObs[count + 1].S \subseteq Avail(q, tssAct[1]) /\ Cardinality(PObs[count + 1].S) = T
+            /\ \E pr \in Prios : RequestEffect(pr, PObs, FALSE)
             /\ ret' = RetsObs
          \/ /\ ~Line.o.ok
             /\ RequestRej
     ELSE IF "Request.create" \in Owned
-    THEN \/ /\ Line.o.ok /\ Len(Line.o.ret) = 1
-            /\ RequestEffect(RetsObs[1].S)
+    THEN \/ /\ Line.o.ok /\ Len(Line.o.ret) >= 1
+            /\ RequestEffect(AnyPr, PObs, TRUE)
             /\ ret' = RetsObs
          \/ /\ ~Line.o.ok
             /\ Rejected
@@ -108,7 +120,7 @@ TRequest ==
 TEndBlock ==
     /\ Line.o.ok
     /\ IF "EndBlock" \in Owned
-       THEN /\ \E pr \in Prios : EndBlockP(Line.o.created, pr, PObs)
+       THEN /\ \E pr \in Prios : EndBlockP(Line.o.npre, Line.o.npost, pr, PObs, TRUE, Line.o.hand)
             /\ pen' = PenObs
             /\ ("EndBlock.assign" \in Owned) => (ret' = RetsObs /\ DEPart(RetsObs, tssAct, tssAct'))
        ELSE IF "EndBlock.assign" \in Owned
@@ -116,9 +128,9 @@ TEndBlock ==
             /\ DEPart(RetsObs, tssAct, LTss(Line.s))
             /\ ret' = RetsObs /\ pen' = {} /\ out' = "ok"
             /\ h' = h + 1
-            /\ UNCHANGED <<params, nser, cool, count, sig, att, exps, pend, mapped, nSucc, nFail, pchg>>
+            /\ UNCHANGED <<params, nser, cool, sig, att, exps, pend, mapped, nSucc, nFail, tr, trSig, pchg>>
        ELSE /\ h' = h + 1 /\ out' = "ok" /\ pen' = {} /\ ret' = <<>>
-            /\ UNCHANGED <<params, q, nser, tssAct, ownAct, cool, count, sig, att, tok, exps, pend, mapped, nSucc, nFail, usedBy, pchg>>
+            /\ UNCHANGED <<params, q, nser, tssAct, ownAct, cool, count, sig, att, tok, exps, pend, mapped, nSucc, nFail, tr, trSig, usedBy, pchg>>
 
 \* environment: governance changed signing_period (always applied as given)
 TSetPeriod == IF Line.a.p = params.period THEN Skip ELSE SetPeriod(Line.a.p)
@@ -135,6 +147,7 @@ Act ==
          [] Line.e = "RequestRollback" -> IF "RequestRollback" \in Owned THEN TRollback ELSE Skip
          [] Line.e = "SubmitSig"       -> IF "SubmitSig" \in Owned THEN TSubmitSig ELSE Skip
          [] Line.e = "Activate"        -> IF "Activate" \in Owned THEN TActivate ELSE Skip
+         [] Line.e = "Transition"      -> IF "Transition" \in Owned THEN TTransition ELSE Skip
 
 \* checked variable: must equal the observation; unchecked: adopt the observation
 Bind(name, cur, nxt, obs) == IF name \in Checked THEN cur = obs /\ nxt = cur ELSE nxt = obs
@@ -169,7 +182,8 @@ Sync ==
         /\ Bind("mapped", mapped, mapped', LMapped(st))
         /\ Bind("nSucc", nSucc, nSucc', LCnt(st, st.nSucc))
         /\ Bind("nFail", nFail, nFail', LCnt(st, st.nFail))
-    /\ UNCHANGED <<out, pen, ret, usedBy, pchg>>
+        /\ Bind("tr", tr, tr', st.tr)
+    /\ UNCHANGED <<out, pen, ret, usedBy, pchg, trSig>>
 
 TraceNext == Act \/ Sync
 TraceSpec == TraceInit /\ [][TraceNext]_tvars
@@ -180,11 +194,11 @@ TraceAccepted ==
     ELSE Print(<<"TRACE_REJECTED_AT_LINE", (d + 1) \div 2, "PHASE", IF d % 2 = 1 THEN "act" ELSE "sync", "OF", Len(TraceLog)>>, FALSE)
 
 \* the bounds of the trace spec must not be what stops the implementation
-TraceBoundOK == count < MaxSig /\ \A a \in Addr : nser[a] < MaxSerial
+TraceBoundOK == count + 3 <= MaxSig /\ \A a \in Addr : nser[a] < MaxSerial
 
 \* invariants are evaluated on the states between lines (after Sync)
 AtLine == ph = "act"
-InvC05T == NoReuse /\ QueueFresh /\ QueueBound /\ TokSound
+InvC05T == NoReuse /\ QueueFresh /\ QueueBound /\ TokSound /\ TokCount
 TInvC05 == AtLine => InvC05T
 TInvC10 == AtLine => (InvC10 /\ OnTime /\ BoundedTermination)
 
@@ -196,6 +210,7 @@ TQueueStep == [][Exempt \/ QueueStepA]_tvars
 TEligible == [][Exempt \/ EligibleA]_tvars
 TRejectedNoChange == [][Exempt \/ RejectedA]_tvars
 TGhostExact == [][Exempt \/ GhostA]_tvars
+TCreationExact == [][Exempt \/ CreationA]_tvars
 TStatus == [][Exempt \/ StatusA]_tvars
 TAttempt == [][Exempt \/ AttemptA]_tvars
 TNoEarlyTimeout == [][Exempt \/ NoEarlyTimeoutA]_tvars
@@ -206,4 +221,5 @@ TTimeout == [][Exempt \/ TimeoutA]_tvars
 TPenalty == [][Exempt \/ PenaltyA]_tvars
 TSigned == [][Exempt \/ SignedA]_tvars
 TCallback == [][Exempt \/ CallbackA]_tvars
+TTransitionStep == [][Exempt \/ TransitionA]_tvars
 =============================================================================
